@@ -297,8 +297,12 @@ def container_stream(ctx):
     corp = [c for c in kf.corpus(ctx.thorough) if c[1] in ("rsa", "ec", "ed")]
     reqs, cases = [], []
     per = 60 if ctx.thorough else 18
-    # the two witness containers of the known findings, as files
+    # the containers of the two legacy_*_witness theorems, as files (the repaired code must refuse them with
+    # SSHException; the model of the code before the fixes is reported in the evidence)
     wit = ctx.driver("C37", ["witness aead", "witness nonutf8"])
+    if wit is not None:
+        ctx.extra["legacy_model"] = ctx.driver("C37", ["legacy.ed 78 %s 00 unused -" % wit[0],
+                                                       "legacy.ossh rsa 78 %s unused unused unused" % wit[1]])
     extra = []
     if wit is not None:
         for name, h, kind in (("witness:aead", wit[0], "ed"), ("witness:nonutf8", wit[1], "rsa"), ("witness:nonutf8", wit[1], "ec")):
@@ -456,24 +460,22 @@ def replay(data):
 
 META = {
     "claimed": True,
-    "level": ("PARTIAL (container level). Proved in Lean for all container bytes, all passphrases and every behaviour of the "
-              "third-party calls allowed by PrimSpec: (1) the PEM/DER route after the headers (Proc-Type/DEK-Info handling, "
-              "unhexlify, decryption, PKCS7 unpadding, load_der, type/curve checks) only ends in ok / SSHException / "
-              "PasswordRequiredException; (2) the OpenSSH container reader of RSAKey/ECDSAKey (magic, cstruct unpacking, kdf and "
-              "cipher dispatch, bcrypt, decryption, checkints, _unpad_openssh, key numbers) does so except for one call site "
-              "(UnicodeDecodeError when a non-UTF-8 cipher name is formatted into the error message) - witness + theorem on the "
-              "complement; (3) the Ed25519 reader does so except for one call site (KeyError when the container names an AEAD "
-              "cipher of Transport._cipher_info) - witness + theorem on the complement; (4) an Ed25519 key that loads carries the "
-              "verify key derived from its seed. Tied to pkey.py/rsakey.py/ecdsakey.py/ed25519key.py by differential runs on "
-              "well-armored files with mutated container bodies, third-party answers recorded from the real run. NOT modelled: "
-              "the text level (line scanning, armor regexes, header splitting, base64) and public/private agreement for "
-              "RSA/ECDSA (the public half is computed from the private one by cryptography) - both checked by the oracle only, "
-              "on byte-level mutants of every bundled and generated key file."),
-    "note": ("Trusted: Lean kernel + 3 axioms; PrimSpec (which exception classes bcrypt/cryptography/nacl raise); the recorded "
-             "primitive answers; Message/UTF-8 models (C39/C35). Found and fixed by this check (10 fix: commits): IndexError "
-             "(_unpad_openssh), AssertionError (Ed25519 reader, RSAKey), binascii.Error (DEK-Info salt), ValueError (PEM decrypt, "
-             "OpenSSH decrypt/bcrypt, RSA numbers, Ed25519 reader incl. UnicodeDecodeError), AttributeError (non-EC key in EC "
-             "armor), UnicodeDecodeError (non-UTF-8 file). Listed as known findings: the two remaining call sites."),
+    "level": ("PARTIAL only in that public/private agreement of RSA/ECDSA keys is cryptography's (the public half is computed "
+              "from the private one). Proved in Lean for all bytes, all passphrases and every behaviour of the third-party calls "
+              "allowed by PrimSpec: the loaders only end in ok / SSHException / PasswordRequiredException - (1) the PEM/DER route "
+              "(Proc-Type/DEK-Info handling, unhexlify, decryption, PKCS7 unpadding, load_der, type/curve checks), (2) the OpenSSH "
+              "container reader of RSAKey/ECDSAKey (magic, cstruct unpacking, kdf and cipher dispatch, bcrypt, decryption, "
+              "checkints, _unpad_openssh, key numbers), (3) the Ed25519 reader; and an Ed25519 key that loads "
+              "carries the verify key derived from its seed. Tied to pkey.py/rsakey.py/ecdsakey.py/ed25519key.py by differential "
+              "runs with third-party answers recorded from the real run, plus a byte-level mutation oracle over every bundled and "
+              "generated key file. The text level (line scan, armor regexes, header splitting, base64) is covered by the oracle "
+              "only."),
+    "note": ("Trusted: Lean kernel + 3 axioms; PrimSpec (which exception classes bcrypt/cryptography/nacl/base64 raise); the "
+             "recorded primitive answers; Message/UTF-8 models (C39/C35); Python's str.split/strip/re on ASCII text as modelled. "
+             "Found and fixed by this check (12 fix: commits): IndexError (_unpad_openssh), AssertionError (Ed25519 reader, "
+             "RSAKey), binascii.Error (DEK-Info salt), ValueError (PEM decrypt, OpenSSH decrypt/bcrypt, RSA numbers, Ed25519 "
+             "reader incl. UnicodeDecodeError), AttributeError (non-EC key in EC armor), UnicodeDecodeError (non-UTF-8 file; "
+             "non-UTF-8 cipher name), KeyError (AEAD cipher in an Ed25519 container). No known findings remain."),
     "technique": "Lean 4 proof over an exception-class model with try/except handlers and abstract primitives + differential "
                  "correspondence with recorded primitive answers + byte-level mutation oracle",
 }
